@@ -47,6 +47,11 @@ def run_all(repo, R, rule="AXTYPE-K", relevant=None, names=None):
             tag = name + ("".join(f"[{k}={'T' if v else 'F'}]" for k, v in sorted(choices.items())) if choices else "")
             if isinstance(ex, LabelMismatch):
                 lm = ex
+                if getattr(lm, "value_only", False):
+                    # a defect of the computed values (not of the axes / layout this property is about): left to the operator's own check
+                    R.extra.setdefault("mismatches_left_to_the_operator_checks", []).append(f"[{name}] {lm.msg}"[:200])
+                    out.append((name, f, None))
+                    continue
                 if relevant is not None and lm.involved is not None and not relevant([b for b in lm.involved if b is not None]):
                     R.extra.setdefault("mismatches_left_to_the_operator_checks", []).append(f"[{name}] {lm.msg}"[:200])
                     out.append((name, f, None))
